@@ -376,7 +376,16 @@ def _raw_asgi(a: Dict[str, Any], built: Built) -> Any:
         built.calls.append(("raw", a.get("label")))
         if raises == "before":
             raise ProducerError("raw app failed before start")
-        await send({"type": "http.response.start", "status": code, "headers": headers})
+        # the ASGI specification types `headers` as an iterable: hand over a list, a tuple, a one-shot
+        # iterator or a generator depending on the variant
+        hv: Any = headers
+        if a.get("returns") == "tuple":
+            hv = tuple(headers)
+        elif a.get("returns") == "iter":
+            hv = iter(list(headers))
+        elif a.get("returns") in ("gen", "generator", "generator-late-start"):
+            hv = (h for h in list(headers))
+        await send({"type": "http.response.start", "status": code, "headers": hv})
         if raises == "after":
             raise ProducerError("raw app failed after start")
         if not chunks:
